@@ -29,10 +29,27 @@ def run_part(ctx, vh=None, md=None):
     return n, nev
 
 
-def run_cmd_part(ctx, vh=None, md=None):
+def run_cmd_part(ctx, vh=None, md=None, prove=False):
     """the loops of encode and plot (spec/cli/CmdLoop.tla); runs inside C08 and C17, whose anchors include them"""
     vh = vh or ctx.build_harness()
     md = md or ctx.build_maindrv()
+    if prove:
+        # for every input length: IndInv is inductive and implies the properties (Apalache, N an unconstrained natural number)
+        import shutil, subprocess, time
+        d = os.path.join(ctx.scratch, "cmdloop-apalache")
+        os.makedirs(d, exist_ok=True)
+        shutil.copy(os.path.join(core.SPEC, "cli", "CmdLoop.tla"), d)
+        for init, inv, length in (("Init", "IndInv", 0), ("IndInit", "IndInv", 1), ("IndInit", "Goal", 0)):
+            t = time.time()
+            try:
+                r = subprocess.run(["apalache-mc", "check", "--cinit=ConstInit", "--init=" + init, "--inv=" + inv, "--length=%d" % length,
+                                    "--out-dir=" + os.path.join(d, "apa-out"), "CmdLoop.tla"], cwd=d, capture_output=True, text=True, timeout=600)
+            except subprocess.TimeoutExpired:
+                raise core.Infra("apalache timed out on CmdLoop %s => %s" % (init, inv))
+            if "The outcome is: NoError" not in r.stdout + r.stderr:
+                raise core.Infra("CmdLoop: obligation %s => %s does not hold in the model:\n%s" % (init, inv, (r.stdout + r.stderr)[-1500:]))
+            ctx.log("apalache CmdLoop %s => %s (length %d): no error in %.1fs" % (init, inv, length, time.time() - t))
+        ctx.coverage["cmdloop_unbounded_proof"] = "Apalache: IndInv of CmdLoop.tla inductive and => NoLoss, DoneWritesAll, WholeUnlessInterrupted for every N (both kinds)"
     for cfg in ("MCCmdLoop_encode.cfg", "MCCmdLoop_plot.cfg"):
         ctx.model_check("cli", "MCCmdLoop", cfg)
     r = ctx.model_check("cli", "MCCmdLoop", "MCCmdLoopDrop.cfg", expect_ok=False)
@@ -50,7 +67,7 @@ def run_cmd_part(ctx, vh=None, md=None):
 
 def run(ctx):
     n, nev = run_part(ctx)
-    n2, nev2 = run_cmd_part(ctx)
+    n2, nev2 = run_cmd_part(ctx, prove=True)
     n, nev = n + n2, nev + nev2
     ctx.coverage.update({"traces_validated_against_impl": n, "trace_events": nev})
     return "model_checking"
